@@ -45,7 +45,7 @@ def rand_layout(rng, p_none=0.35, **kw):
 def pct_layout(rng, origin=True, small=True):
     """A percentage layout that fits on the screen (origin + extent inside the safe area when
     small=True) — used where fit_to_screen must be the identity."""
-    vals = [0, 5, 10, 12.5, 20, 25, 33.33, 40, 50]
+    vals = [0, 0.5, 0.25, 5, 10, 12.5, 20, 25, 33.33, 40, 50]       # 0.5 / 0.25: printed with a leading zero
     spec = {'origin': None, 'extent': None, 'padding': None, 'alignment': None}
     if origin:
         x, y = rng.choice(vals), rng.choice(vals)
@@ -55,7 +55,7 @@ def pct_layout(rng, origin=True, small=True):
             h = rng.choice([v for v in vals if v > 0 and y + v <= 95])
             spec['extent'] = [[float(w), '%'], [float(h), '%']]
     if rng.random() < 0.5:
-        pv = [0, 1, 2.5, 5]
+        pv = [0, 0.5, 0.75, 1, 2.5, 5]
         spec['padding'] = [[float(rng.choice(pv)), '%'] for _ in range(4)]
     if rng.random() < 0.7:
         spec['alignment'] = [rng.choice(HALIGN + [None]), rng.choice(VALIGN + [None])]
